@@ -38,13 +38,13 @@ def budget(tier):
 
 @st.composite
 def strategy_(draw, tier):
-    mol = draw(gens.mols(tier))
+    mol = draw(st.one_of(gens.mols(tier), gens.mols(tier), gens.mols(tier), gens.mols(tier, wide=True)))
     n, m = len(mol["atoms"]), len(mol["bonds"])
     k = 3 if tier == "quick" else 6
     if n > 150:
         k = 2
     tfs = [draw(gens.listing(n, m)) for _ in range(k)]
-    route = draw(st.sampled_from(["graph", "graph", "v3000", "v2000"]))
+    route = draw(st.sampled_from(["graph", "graph", "graph", "v3000", "v2000", "tucan", "mixed"]))
     return {"mol": mol, "tfs": tfs, "route": route, "style_seed": draw(st.integers(0, 1000))}
 
 
@@ -53,7 +53,7 @@ def strategy(tier):
 
 
 def molfile_ok(mol, route):
-    if route == "graph":
+    if route in ("graph", "tucan"):
         return True
     for z, mass, rad, chg, *_ in mol.atoms:
         if not (0 <= mass <= 999 and 0 <= rad <= 3 and -15 <= chg <= 15):
@@ -64,11 +64,28 @@ def molfile_ok(mol, route):
     return True
 
 
+def route_for(route, k, mol):
+    """`mixed`: the base description goes through the graph constructor, the k-th transformed
+    description through another format in turn (string, V3000, V2000, constructor)."""
+    if route != "mixed":
+        return route
+    if k < 0:
+        return "graph"
+    r = ["tucan", "v3000", "v2000", "graph"][k % 4]
+    return r if molfile_ok(mol, r) else "tucan"
+
+
 def describe(mol, listing, route, style_seed):
     """Build the library graph for one description of the molecule."""
     if route == "graph":
         g = mol_to_graph(mol, listing["order"], [k - 1 for k in listing["keys"]], listing["bond_order"], listing["flips"])
         return post_process(g, listing)
+    if route == "tucan":
+        # the molecule written down in the published string format by own code (not canonical)
+        from ..lib import graph_from_tucan
+        from ..sentences import mol_to_sentence
+
+        return call("parse(description)", graph_from_tucan, mol_to_sentence(mol, listing["order"], listing["bond_order"], listing["flips"]))
     if route == "v3000":
         text = render_v3000(mol, listing, {"seed": style_seed})
     else:
@@ -113,15 +130,15 @@ def post_process(g, listing):
 def check(case, stats):
     mol = Mol.from_json(case["mol"])
     n = mol.n
-    route = case["route"] if molfile_ok(mol, case["route"]) else "graph"
+    route = case["route"] if (case["route"] == "mixed" or molfile_ok(mol, case["route"])) else "graph"
     ident = {"order": list(range(n)), "keys": list(range(1, n + 1)), "bond_order": list(range(mol.m)), "flips": [False] * mol.m}
-    base = pipeline(describe(mol, ident, route, case["style_seed"]), "base")
+    base = pipeline(describe(mol, ident, route_for(route, -1, mol), case["style_seed"]), "base")
     stats.evaluated()
     base_id = (mol.atoms, mol.bonds)
     differs = False
     for k, tf in enumerate(case["tfs"]):
         pm = mol.permute(tf["pi"])
-        g = describe(pm, tf, route, case["style_seed"])
+        g = describe(pm, tf, route_for(route, k, mol), case["style_seed"])
         s = pipeline(g, "permuted")
         stats.evaluated()
         listing_trivial = tf["order"] == ident["order"] and tf["bond_order"] == ident["bond_order"] and not any(tf["flips"])
